@@ -215,6 +215,7 @@ type vfRes struct {
 	maxViol  int
 	witnessN int
 	sigset   map[string]bool
+	rewrite  func(prop, key string) (string, string) // attribution of shared monitors inside a scenario (e.g. C03: state corrupted by hostile input)
 }
 
 func vfNewRes(spec *vfSpec) *vfRes {
@@ -228,6 +229,9 @@ func vfNewRes(spec *vfSpec) *vfRes {
 func (r *vfRes) violate(prop, key, format string, args ...any) {
 	r.mu.Lock()
 	defer r.mu.Unlock()
+	if r.rewrite != nil {
+		prop, key = r.rewrite(prop, key)
+	}
 	r.res.Counters["violations_raw"]++
 	for _, v := range r.res.Violations {
 		if v.Prop == prop && v.Key == key {
